@@ -27,7 +27,7 @@ def configs():
 
 def run_one(mod, cfgname, wd, timeout, expect_violation=False):
     md = os.path.join(wd, mod + "_" + cfgname + ".md")
-    cmd = ["java", "-DTLA-Library=" + SPEC, "-Xmx6g", "-XX:+UseParallelGC", "-cp", JAVA_CP, "tlc2.TLC", "-workers", "4", "-metadir", md, "-config",
+    cmd = ["java", "-DTLA-Library=" + SPEC, "-Xmx6g", "-XX:+UseParallelGC", "-cp", JAVA_CP, "tlc2.TLC", "-noGenerateSpecTE", "-workers", "4", "-metadir", md, "-config",
            os.path.join(IMPL, cfgname + ".cfg"), os.path.join(IMPL, mod + ".tla")]
     t0 = time.time()
     try:
